@@ -6,6 +6,7 @@ import (
 	"go/parser"
 	"go/token"
 	"go/types"
+	"golang.org/x/tools/go/cfg"
 	"os"
 	"os/exec"
 	"path/filepath"
@@ -271,6 +272,15 @@ func spliceNormalForm(body *ast.BlockStmt, facts [][2]string, helperOf ...func(*
 			if se, ok := ast.Unparen(x.Fun).(*ast.SelectorExpr); ok && se.Sel.Name == "Load" && len(x.Args) == 0 {
 				return term(se.X)
 			}
+			// atomic exchange x.f.Swap(v): the value is the current x.f, then x.f = v
+			if se, ok := ast.Unparen(x.Fun).(*ast.SelectorExpr); ok && se.Sel.Name == "Swap" && len(x.Args) == 1 {
+				if fs, isSel := ast.Unparen(se.X).(*ast.SelectorExpr); isSel && isPtrField(fs.Sel.Name) {
+					old := term(fs)
+					v := term(x.Args[0])
+					nf.logs[fs.Sel.Name] = append(nf.logs[fs.Sel.Name], [2]string{term(fs.X), v})
+					return old
+				}
+			}
 		case *ast.UnaryExpr:
 			if x.Op == token.AND {
 				return "&" + term(x.X)
@@ -377,6 +387,17 @@ func spliceNormalForm(body *ast.BlockStmt, facts [][2]string, helperOf ...func(*
 			case *ast.IncDecStmt:
 				nf.book = append(nf.book, term(x.X)+x.Tok.String())
 			case *ast.IfStmt:
+				// membership test and release in one step: if x.list.CompareAndSwap(l, nil) { ...splice... }
+				// is the splice under the guard x.list == l together with x.list = nil
+				if c, ok := ast.Unparen(x.Cond).(*ast.CallExpr); ok && x.Else == nil && x.Init == nil && len(c.Args) == 2 {
+					if se, ok := ast.Unparen(c.Fun).(*ast.SelectorExpr); ok && se.Sel.Name == "CompareAndSwap" {
+						if fs, isSel := ast.Unparen(se.X).(*ast.SelectorExpr); isSel && fs.Sel.Name == "list" {
+							nf.book = append(nf.book, term(fs.X)+".list = "+term(c.Args[1]))
+							run(x.Body.List, depth)
+							continue
+						}
+					}
+				}
 				// guard: if a == b { return }  adds the fact a != b for the rest
 				if be, ok := ast.Unparen(x.Cond).(*ast.BinaryExpr); ok && be.Op == token.EQL && len(x.Body.List) == 1 && x.Else == nil && x.Init == nil {
 					if _, isRet := x.Body.List[0].(*ast.ReturnStmt); isRet {
@@ -397,6 +418,21 @@ func spliceNormalForm(body *ast.BlockStmt, facts [][2]string, helperOf ...func(*
 		}
 	}
 	run(body.List, 0)
+	// stores of one field to pairwise distinct bases commute: their order is not part of the effect
+	for f, log := range nf.logs {
+		pairwise := true
+		for i := range log {
+			for j := i + 1; j < len(log); j++ {
+				if !distinct(log[i][0], log[j][0]) {
+					pairwise = false
+				}
+			}
+		}
+		if pairwise {
+			sort.Slice(log, func(i, j int) bool { return log[i][0] < log[j][0] })
+			nf.logs[f] = log
+		}
+	}
 	sort.Strings(nf.book)
 	sort.Strings(nf.guards)
 	return nf
@@ -542,6 +578,27 @@ func checkListCore(r *Reporter, p *Prog) {
 				a, b := tv.Name()+".list.Load()", recvName
 				return rel.Op == "==" && ((rel.L == a && rel.R == b) || (rel.L == b && rel.R == a))
 			})
+			// the membership test may be an atomic CompareAndSwap(receiver, nil) on the handle's list
+			// pointer, in this method or in the splice helper it is handed to (spliced in)
+			recvO := recvObj(info, fd)
+			f.forEachEdgeFact(func(e Edge, eb *cfg.Block, ft fact) {
+				cl, ok := ast.Unparen(ft.Atom).(*ast.CallExpr)
+				if !ok || !ft.Pol || len(cl.Args) != 2 {
+					return
+				}
+				se, ok := ast.Unparen(cl.Fun).(*ast.SelectorExpr)
+				if !ok || se.Sel.Name != "CompareAndSwap" {
+					return
+				}
+				fs, ok := ast.Unparen(se.X).(*ast.SelectorExpr)
+				if !ok || fs.Sel.Name != "list" {
+					return
+				}
+				ept := Point{eb, len(eb.Nodes) - 1}
+				if f.IsVar(fs.X, ept, tv) && recvO != nil && f.IsVar(cl.Args[0], ept, recvO) {
+					eq = append(eq, e)
+				}
+			})
 			if len(eq) == 0 {
 				r.Fail("handle/validated", key, p.posStr(fd.Pos()), "no comparison of "+tv.Name()+".list.Load() with the receiver")
 				continue
@@ -567,8 +624,64 @@ func checkListCore(r *Reporter, p *Prog) {
 			}) {
 				nUse++
 				if w, only := f.OnlyThroughEdges(pt, eq); !only {
-					ok = false
-					r.Fail("handle/validated", key, f.PosOf(pt), "a splice using this handle is reachable without establishing that the handle belongs to this list", w...)
+					// the helper may validate the handle itself: it is spliced in, and every effect inside
+					// it (pointer stores and exchanges, len/list bookkeeping) lies behind a membership edge
+					inHelper := false
+					var call *ast.CallExpr
+					inspectNoLit(f.nodeAt(pt), func(m ast.Node) bool {
+						if c, isCall := m.(*ast.CallExpr); isCall && call == nil {
+							if se, isSel := ast.Unparen(c.Fun).(*ast.SelectorExpr); isSel && isSplice(se.Sel.Name) {
+								call = c
+							}
+						}
+						return true
+					})
+					if reg := f.regionByCall(call); call != nil && reg != nil {
+						inHelper = true
+						nEff := 0
+						for _, b := range f.G.Blocks {
+							if !b.Live {
+								continue
+							}
+							in := false
+							for rg := f.regionOf[b]; rg != nil; rg = rg.parent {
+								if rg == reg {
+									in = true
+								}
+							}
+							if !in {
+								continue
+							}
+							for i, nd := range b.Nodes {
+								isEff := false
+								inspectNoLit(nd, func(m ast.Node) bool {
+									switch y := m.(type) {
+									case *ast.IncDecStmt:
+										isEff = true
+									case *ast.CallExpr:
+										if se, isSel := ast.Unparen(y.Fun).(*ast.SelectorExpr); isSel && (se.Sel.Name == "Store" || se.Sel.Name == "Swap") {
+											isEff = true
+										}
+									}
+									return true
+								})
+								if !isEff {
+									continue
+								}
+								nEff++
+								if _, only2 := f.OnlyThroughEdges(Point{b, i}, eq); !only2 {
+									inHelper = false
+								}
+							}
+						}
+						if nEff == 0 {
+							inHelper = false
+						}
+					}
+					if !inHelper {
+						ok = false
+						r.Fail("handle/validated", key, f.PosOf(pt), "a splice using this handle is reachable without establishing that the handle belongs to this list", w...)
+					}
 				}
 			}
 			if nUse == 0 {
@@ -636,6 +749,14 @@ func checkListCore(r *Reporter, p *Prog) {
 				if se, ok := ast.Unparen(x.Fun).(*ast.SelectorExpr); ok && se.Sel.Name == "Store" && fieldSel(info, se.X, "list") && len(x.Args) == 1 {
 					v := "recv"
 					if isNil(info, x.Args[0]) {
+						v = "nil"
+					}
+					sites = append(sites, site{fd.Name.Name, "list.Store(" + v + ")"})
+				}
+				// CompareAndSwap(old, new) on the list pointer stores new (when it succeeds)
+				if se, ok := ast.Unparen(x.Fun).(*ast.SelectorExpr); ok && se.Sel.Name == "CompareAndSwap" && fieldSel(info, se.X, "list") && len(x.Args) == 2 {
+					v := "recv"
+					if isNil(info, x.Args[1]) {
 						v = "nil"
 					}
 					sites = append(sites, site{fd.Name.Name, "list.Store(" + v + ")"})
